@@ -138,6 +138,15 @@ def _stress_cases(thorough):
          "variants": base + [{"label": "enn1", "mode": "enforce", "maxN3": 1}, {"label": "enn3", "mode": "enforce", "maxN3": 3}]},
         {"id": "st-n3max", "nodes": one, "signed": True, "exp": "any", "stress": {"n3iter": 600, "nxQuery": True}, "variants": base},
     ]
+    gen = [{"kind": "REFGEN", "tgt": [], "fan": 0}]
+    cs += [
+        # minimisation given up half-way (the root mishandles minimised probes): the restarted descent is the same
+        # request tree; an ever-deeper referral generator below makes every unmetered attempt visible upstream
+        {"id": "st-minfb", "nodes": gen, "signed": False, "exp": "any", "stress": {"minFallback": True},
+         "variants": [{"label": "off", "mode": "off", "qmin": 5}, {"label": "sh1", "mode": "shadow", "maxOut": 1, "maxInt": 1, "qmin": 5},
+                      {"label": "en6", "mode": "enforce", "maxOut": 6, "maxInt": 8, "qmin": 5}, {"label": "en3", "mode": "enforce", "maxOut": 3, "maxInt": 8, "qmin": 5},
+                      {"label": "endef", "mode": "enforce", "qmin": 5}]},
+    ]
     cs += [
         {"id": "st-manyns7", "nodes": one, "signed": False, "exp": "answer", "stress": {"manyNS": 7},
          "variants": [{"label": "off", "mode": "off"}, {"label": "sh1", "mode": "shadow", "maxOut": 1, "maxInt": 1},
